@@ -37,6 +37,12 @@ def configure(parser, mode, in_place=False):
     table = {"sgn": SgnExpression}
     if mode == 3:
         table.update({"abs": AbsExpression, "absolute": AbsExpression})
+    if in_place == "replace":
+        # a whole new Tokenizer object put in place of the parser's (the attribute is public)
+        from mathy_core.tokenizer import Tokenizer
+        tk = parser.tokenizer = Tokenizer(exclude_padding=(mode != 2))
+        tk.functions = table
+        return
     if in_place:
         for k in list(tk.functions):
             if k not in table:
@@ -124,6 +130,21 @@ def run_history(case):
                 except Exception:  # noqa
                     pass
             steps.append({"op": "edit", "t": 0, "res": 0, "lid": 0, "m": 0})
+        elif op == "D":
+            # the same call made from deep inside the caller's own recursion: it may fail for lack of stack (not judged);
+            # what matters is that the parser answers normally afterwards
+            import sys
+
+            def deep(n):
+                if n > 0:
+                    return deep(n - 1)
+                return parser.parse(texts[arg])
+            depth_now = len(__import__("inspect").stack(0))
+            try:
+                deep(max(0, sys.getrecursionlimit() - depth_now - 40))
+            except BaseException:  # noqa
+                pass
+            steps.append({"op": "deepcall", "t": arg + 1, "res": 0, "lid": 0, "m": 0})
         elif op in ("FP", "FT"):
             try:
                 r = proj_result("tree", ExpressionParser().parse(texts[arg])) if op == "FP" else proj_result("tokens", ExpressionParser().tokenize(texts[arg]))
@@ -131,7 +152,7 @@ def run_history(case):
                 r = proj_result("raise", e)
             steps.append({"op": "fparse" if op == "FP" else "ftokenize", "t": arg + 1, "res": intern(r), "lid": 0, "m": 0})
         elif op == "S":
-            configure(parser, arg, in_place=(len(steps) % 2 == 0))
+            configure(parser, arg, in_place=(True, False, "replace")[len(steps) % 3])
             steps.append({"op": "config", "t": 0, "res": 0, "lid": 0, "m": arg})
     return {"texts": tinfo, "steps": steps, "nvals": len(vals), "vals_sample": vals[:3]}
 
@@ -168,11 +189,11 @@ def domain(ctx, focus):
         cases.append({"texts": TEXTS, "history": h + q})
     # reconfiguration histories: the parser's public tokenizer is reconfigured (padding kept / more functions registered) between calls
     nconf = 0
-    if focus != "sticky":
+    if True:
         ctexts = ["4x + 2y^3", "abs(x)", "absolute(x) + 1", "2abs(y) - sgn(x)", "4 +"]
         cops = [["P", i] for i in range(len(ctexts))] + [["T", i] for i in range(len(ctexts))] + [["C", None], ["S", 1], ["S", 2], ["S", 3]]
         cquery = [["P", i] for i in range(len(ctexts))] + [["T", i] for i in range(len(ctexts))] + [["FP", i] for i in range(len(ctexts))] + [["FT", i] for i in range(len(ctexts))]
-        for n in range(1, 4):
+        for n in range(1, 4 if focus != "sticky" else 3):
             for h in itertools.product(cops, repeat=n):
                 if not any(o == "S" for o, _ in h):
                     continue
@@ -185,6 +206,15 @@ def domain(ctx, focus):
             h = [rng.choice(cops) for _ in range(rng.randint(4, 12))] + [["S", rng.randint(1, 3)]]
             cases.append({"texts": ctexts, "history": h + [["C", None]] + cquery, "noquery": True})
             nconf += 1
+    # calls made from deep inside the caller's recursion (the parse runs out of stack), then the same texts at top level
+    ndeep = 0
+    dtexts = ["(" * 30 + "x + 1" + ")" * 30, "4x + 2y^3", "sgn(sgn(sgn(sgn(x))))", "2 * (3 + (4 - (5 / (6 + x))))", "4 +"]
+    dq = [["P", i] for i in range(len(dtexts))] + [["T", i] for i in range(len(dtexts))] + [["FP", i] for i in range(len(dtexts))]
+    for pre in ([], [["P", 1]], [["T", 0]], [["C", None]]):
+        for i in range(len(dtexts)):
+            cases.append({"texts": dtexts, "history": pre + [["D", i]] + dq, "noquery": True})
+            cases.append({"texts": dtexts, "history": pre + [["D", i], ["D", i], ["C", None]] + dq, "noquery": True})
+            ndeep += 2
     # stress histories: state that only builds up over many calls
     deep_fail = ["((((((((x", "(((1 +", "sgn(((x", "2 * (((((y + 1", "(x))", "4 +", "((((((((1.2.3", "((((((((.", "sgn(sgn(((1..2", "2 * (((((y + 1.2.3", "(((((((( #"]
     nstress = 0
@@ -222,7 +252,7 @@ def domain(ctx, focus):
             h3 = [["P", 0]] + [["P", k + 1] for k in range(n)] + [["P", 1], ["P", 0], ["T", 0], ["P", n]]
             cases.append({"texts": tx3, "history": h3, "noquery": True})
             nstress += 3
-    rule = ("%d reconfiguration histories (all of length <= 3 with at least one reconfiguration of the public tokenizer - padding kept, functions 'abs' and 'absolute' registered, in place or by replacing the table - "
+    rule = ("%d histories that first make the call from deep inside the caller's own recursion (out of stack), then ask at top level; " % ndeep) + ("%d reconfiguration histories (all of length <= 3 with at least one reconfiguration of the public tokenizer - padding kept, functions 'abs' and 'absolute' registered, in place, by replacing the table or by replacing the Tokenizer object - "
             "each with and without clear_cache before the queries, + random ones; every history ends with brand-new default parsers asked the same texts); " % nconf if nconf else "") + ("%d stress histories (130 repeated failing parses of deeply parenthesised texts; cache-capacity probes around 128..1024 distinct texts); " % nstress) + ("all %d histories of length <= %d over %d operations (parse / tokenize of %d texts incl. one failing text per exception class, "
             "clear_cache, %s) each followed by parse, tokenize and parse-again of every text; + seeded random histories up to length 14 over %d texts"
             % (exhaustive, L, len(ops), len(texts), "client edits of handed-out lists" if focus != "sticky" else "no edits", len(TEXTS)))
